@@ -7,6 +7,7 @@ from __future__ import annotations
 
 import copy
 import json
+import math
 import os
 
 import numpy as np
@@ -153,6 +154,16 @@ def run(ctx):
     # --- rigid motion
     g = np.array([r.gauss(0, 1) for _ in range(4)])
     g /= np.linalg.norm(g)
+    if mi % 2 == 0 and m['links'][0]['root'] == 'free':
+      # a frame in which the first root's quaternion passes through w = 0 during the rollout (half a turn away from the
+      # world frame about its own spin axis): q' = g q0 with scalar part w0 > 0 small and dw/dt = -1/2 v . omega_body < 0
+      q0, om = np.array(qv[3:7]), np.array(qdv[3:6])
+      nom = np.linalg.norm(om)
+      if nom > 1e-3:
+        w0 = 0.4 * 0.5 * nom * nsteps * 0.002
+        v = om / nom * math.sqrt(1 - w0 * w0)
+        g = qmul(np.array([w0, v[0], v[1], v[2]]), np.array([q0[0], -q0[1], -q0[2], -q0[3]]))
+        g /= np.linalg.norm(g)
     t = np.array([r.uniform(-3, 3) for _ in range(3)])
     q2, qd2 = list(qv), list(qdv)
     qi = di = 0
